@@ -1478,20 +1478,22 @@ theorem dictGet_none (d : List (Cps × Val)) (k : Cps) : dictGet d k = none ↔ 
       simp only [List.find?, h2, dkeys, List.map_cons, List.mem_cons, h3, false_or]
       exact ih
 
-/-- T10.7 `removeVariable` keeps the invariant and returns the reported value -/
+/-- T10.7 `removeVariable` keeps the invariant and (unless the block is read-only) returns the reported value -/
 theorem vRemove_inv (s : Vars) (name : Cps) (h : VInv s) :
-    VInv (vRemove s name).st ∧ (vRemove s name).out = .ok (vGet s name) := by
+    VInv (vRemove s name).st ∧ (s.readonly = false → (vRemove s name).out = .ok (vGet s name)) := by
   unfold vRemove vGet
-  simp only []
-  cases hg : dictGet s.vars (normalize name) with
-  | none => exact ⟨h, rfl⟩
-  | some r =>
-    simp only []
-    refine ⟨⟨?_, dictDel_keys_nodup _ _ h.2⟩, trivial⟩
-    have hc := named_count_le_one (normalize name) s.seq (by rw [← h.1]; exact h.2)
-    have := delLoop_filter (normalize name) s.seq [] s.seq.length (Nat.le_refl _) hc
-    simp only [List.length_nil, List.nil_append] at this
-    simp only [this, varsOf_filter, h.1]
+  by_cases hr : s.readonly = true
+  · simp only [hr, if_true]; exact ⟨h, by intro x; cases x⟩
+  · simp only [hr, Bool.false_eq_true, if_false]
+    cases hg : dictGet s.vars (normalize name) with
+    | none => exact ⟨h, fun _ => rfl⟩
+    | some r =>
+      simp only []
+      refine ⟨⟨?_, dictDel_keys_nodup _ _ h.2⟩, fun _ => trivial⟩
+      have hc := named_count_le_one (normalize name) s.seq (by rw [← h.1]; exact h.2)
+      have := delLoop_filter (normalize name) s.seq [] s.seq.length (Nat.le_refl _) hc
+      simp only [List.length_nil, List.nil_append] at this
+      simp only [this, varsOf_filter, h.1]
 
 theorem vSet_unchanged_or (env : Env) (s : Vars) (name value : Cps) :
     (vSet env s name value).st = s ∨
@@ -1711,14 +1713,16 @@ theorem vSet_keysStable (env : Env) (s : Vars) (name value : Cps) (hk : KeysStab
 
 theorem vRemove_keysStable (s : Vars) (name : Cps) (hk : KeysStable s) : KeysStable (vRemove s name).st := by
   unfold vRemove
-  simp only []
-  cases dictGet s.vars (normalize name) with
-  | none => exact hk
-  | some r =>
-    intro k hkm
-    simp only [vKeys, dictDel] at hkm
-    obtain ⟨e, he, rfl⟩ := List.mem_map.mp hkm
-    exact hk e.1 (List.mem_map_of_mem (List.mem_filter.mp he).1)
+  by_cases hr : s.readonly = true
+  · simpa [hr] using hk
+  · simp only [hr, Bool.false_eq_true, if_false]
+    cases dictGet s.vars (normalize name) with
+    | none => exact hk
+    | some r =>
+      intro k hkm
+      simp only [vKeys, dictDel] at hkm
+      obtain ⟨e, he, rfl⟩ := List.mem_map.mp hkm
+      exact hk e.1 (List.mem_map_of_mem (List.mem_filter.mp he).1)
 
 /-- the identifiers of a parsed variables text whose normal form is a fixpoint of `normalize` -/
 def VSrcStable : VSrc → Prop
